@@ -47,6 +47,8 @@ def judge(text, top_obj, tags, blackboxes=()):
         mods = vlog.parse(text)
     except vlog.VParseError as e:
         return ('parse', 'emitted text does not parse: {}'.format(e)), None
+    if not mods:
+        return ('no_module_defined', 'the returned text defines no module at all (the requested top is not defined)'), mods
     problems = vcheck.check_design(mods, blackboxes=blackboxes, closed=True)
     if problems:
         rule, msg = problems[0]
@@ -123,9 +125,11 @@ def run_block(case):
     except Exception:
         return discard('rejected_by_constructor', tags)
     try:
-        text = rtl.generate(top)
+        text = rtl.generate(top, history=case.get('history', ()))
     except Refused as e:
         return discard('generation_refused', tags + ['refused:' + name])
+    if case.get('history'):
+        tags.append('generator_reused')
     r = finish(text, top, tags)
     if r['fail']:
         r['fail']['sig'] = r['fail']['sig'] + '|' + name + ('|1-bit-operand' if cfg.get('wa') == 1 else '')
@@ -139,8 +143,14 @@ def block_cases():
         cat = ARITH if n in ARITH else LOGIC
         return cat[n].strat.map(lambda c: {'kind': 'block', 'block': n, 'cfg': c})
     seqs = sorted(c09.BLOCKS)
-    return st.one_of(st.sampled_from(names).flatmap(for_block),
-                     st.sampled_from(seqs).flatmap(lambda n: c09.cfgs(n).map(lambda c: {'kind': 'block', 'block': n, 'cfg': c})))
+    hist = st.one_of(st.just(None), st.just(None), st.lists(st.sampled_from(['hier_top', 'flat_top', 'hier_child', 'flat_child']), min_size=1, max_size=3))
+
+    def with_history(t):
+        case, h = t
+        return dict(case, history=h) if h else case
+    return st.tuples(st.one_of(st.sampled_from(names).flatmap(for_block),
+                               st.sampled_from(seqs).flatmap(lambda n: c09.cfgs(n).map(lambda c: {'kind': 'block', 'block': n, 'cfg': c}))),
+                     hist).map(with_history)
 
 
 def _block_enum_task(task):
@@ -226,10 +236,30 @@ def _run_netlist(case, desc, names, tags):
     top = b.group_obj.get(0)
     if top is None:
         return discard('empty_top', tags)
+    for sa, sb, fresh_name in case.get('renames', ()):
+        # Wire.rename after construction: to a fresh name, or to the name of another wire (py4hw refuses the latter
+        # when both live in the same block; a refusal leaves the design outside the domain)
+        wa = b.wire.get(sa)
+        if wa is None:
+            continue
+        wb = None
+        if sb is not None:
+            # sb selects among the other wires owned by the same block
+            peers = [b.wire[s] for s in sorted(b.wire) if s != sa and b.wire[s].parent is wa.parent and b.wire[s] is not wa]
+            if not peers:
+                continue
+            wb = peers[sb % len(peers)]
+        try:
+            wa.rename(wb.name if wb is not None else fresh_name)
+        except Exception:
+            return discard('rename_rejected', tags)
+        tags.append('renamed_to_existing' if wb is not None else 'renamed')
     try:
-        text = rtl.generate(top)
+        text = rtl.generate(top, history=case.get('history', ()))
     except Refused as e:
         return discard('generation_refused', tags)
+    if case.get('history'):
+        tags.append('generator_reused')
     adv = sorted({adversarial_class(v) for v in names.values()} - {None})
     tags += ['names:' + a for a in adv]
     return finish(text, top, tags, extra_nt=bool(adv))
@@ -278,7 +308,18 @@ def netlist_cases(draw, max_nodes):
                     n = '{}{}'.format(base, c)
                 inst_used[(g, n)] = 1
                 names['inst%d' % k] = n
-    return {'kind': 'netlist', 'desc': desc, 'names': names}
+    case = {'kind': 'netlist', 'desc': desc, 'names': names}
+    if draw(st.integers(0, 3)) == 0:
+        rn = []
+        for _ in range(draw(st.integers(1, 2))):
+            a = draw(st.sampled_from(sigs))
+            other = draw(st.one_of(st.none(), st.integers(0, 7)))
+            rn.append([a, other, 'rn_{}'.format(len(rn))])
+        case['renames'] = rn
+    if draw(st.integers(0, 3)) == 0:
+        # the judged text is requested from a generator object that already served other requests
+        case['history'] = draw(st.lists(st.sampled_from(['hier_top', 'flat_top', 'hier_child', 'flat_child']), min_size=1, max_size=3))
+    return case
 
 
 # ---- (c) reuse under one module name ------------------------------------------------------------------------------
